@@ -2,8 +2,10 @@ use crate::rt::Ctx;
 pub mod c01;
 pub mod c02;
 pub mod c03;
+pub mod c06;
 pub mod c12;
 pub mod c13;
+pub mod c17;
 pub mod c18;
 pub mod c19;
 
@@ -12,8 +14,10 @@ pub fn run(prop: &str, ctx: &mut Ctx) -> bool {
         "C01" => c01::run(ctx),
         "C02" => c02::run(ctx),
         "C03" => c03::run(ctx),
+        "C06" => c06::run(ctx),
         "C12" => c12::run(ctx),
         "C13" => c13::run(ctx),
+        "C17" => c17::run(ctx),
         "C18" => c18::run(ctx),
         "C19" => c19::run(ctx),
         _ => return false,
